@@ -2112,6 +2112,7 @@ def shrink_hist_case(case, key: str):
 
 def check_hist_cases(res: Result, cases: list[dict[str, Any]], deadline: float) -> None:
     runs = []
+    failing: set[str] = set()
     for case in cases:
         if time.time() > deadline:
             res.notes.append(f"hist: stopped at the time limit after {len(runs)} of {len(cases)} cases")
@@ -2119,6 +2120,11 @@ def check_hist_cases(res: Result, cases: list[dict[str, Any]], deadline: float) 
         run = usable_run(res, "hist", run_hist_case, case)
         if run is not None:
             runs.append((case, run))
+            failing.update(k for k, _ in hist_oracle(case, run))
+            if len(failing) >= 3:
+                # several distinct failures already have a replay: the remaining cases would mostly wait for events
+                res.notes.append(f"hist: stopped after {len(runs)} of {len(cases)} cases, oracle failures {sorted(failing)} are reported")
+                break
     lines: list[str] = []
     for _, run in runs:
         for obs in run["calls"]:
@@ -2707,6 +2713,7 @@ def shrink_xlin_case(case, key: str):
 
 def check_xlin_cases(res: Result, cases: list[dict[str, Any]], deadline: float) -> None:
     runs = []
+    failing: set[str] = set()
     for case in cases:
         if time.time() > deadline:
             res.notes.append(f"xlin: stopped at the time limit after {len(runs)} of {len(cases)} cases")
@@ -2714,6 +2721,10 @@ def check_xlin_cases(res: Result, cases: list[dict[str, Any]], deadline: float) 
         obs = usable_run(res, "xlin", run_xlin_case, case)
         if obs is not None:
             runs.append((case, obs))
+            failing.update(k for k, _ in xlin_oracle(case, obs))
+            if len(failing) >= 3:
+                res.notes.append(f"xlin: stopped after {len(runs)} of {len(cases)} cases, oracle failures {sorted(failing)} are reported")
+                break
     lines: list[str] = []
     for _, obs in runs:
         lines.extend(obs["lines"])
